@@ -144,6 +144,48 @@ def ordering(ctx, prog):
     ctx.ob("C09-D2/DEP", ok, uh.site(), "what is fetched is the server's (txid, height) history minus what is stored", func=q)
     ok = "to_request[i] = (txid, remote_height)" in t and "if (txid, remote_height) in already_synced" in t and "pending_synced_history[tx_indexes[tx.id]] = f'{tx.id}:{tx.height}:'" in t
     ctx.ob("C09-D2/DEP", ok, uh.site(), "every remote entry that is not an already-synced prefix entry is requested and recorded at its remote index", func=q)
+    params = uh.fi.params()
+    adds = [c for c in uh.calls(dotted_name="already_synced.add")]
+    ctx.floor("C09-D2/GATE", "already_synced.add(…) in update_history", len(adds), 1, site=uh.site(), func=q)
+    for c in adds:
+        ok = len(c.args) == 1 and unparse(c.args[0]) == "(txid, remote_height)"
+        ctx.ob("C09-D2/DEP", ok, uh.site(c), "what is marked already-synced is the remote entry itself", func=q)
+        R.exact_gate(ctx, "C09-D2/GATE", uh, c, "i == already_synced_offset and i < len(local_history) and local_history[i] == (txid, remote_height)",
+                     "a remote entry is skipped as already synced only when the stored history has the same (txid, height) at the same position and every "
+                     "earlier position matched too (a common prefix) — anything else is fetched again",
+                     ignore=["not local_status == remote_status", "we_need", "not not we_need"], key=f"C09-D2/GATE|{q}|prefix")
+        blk = R.stmt_of(c)._parent
+        sib = [unparse(x) for x in getattr(blk, "body", [])]
+        ok = "already_synced_offset += 1" in sib and "pending_synced_history[i] = f'{txid}:{remote_height}:'" in sib
+        ctx.ob("C09-D2/DEP", ok, uh.site(c), "the prefix pointer advances by one and the entry is recorded at its own index, in the same branch", func=q)
+    inits = [x for x in uh.stmts(ast.Assign) if any(dotted(t) == "already_synced_offset" for t in x.targets)]
+    ctx.ob("C09-D2/DEP", len(inits) == 1 and is_const(inits[0].value, 0), uh.site(), "the prefix pointer starts at 0", func=q)
+    writes = [x for x in uh.stmts(ast.Assign) if any(isinstance(t, ast.Subscript) and dotted(t.value) == "to_request" for t in x.targets)]
+    for w in writes:
+        R.exact_gate(ctx, "C09-D2/GATE", uh, w, "(txid, remote_height) not in already_synced", "every remote entry outside the synced prefix is requested",
+                     ignore=["not local_status == remote_status", "we_need", "not not we_need"], key=f"C09-D2/GATE|{q}|request-rest")
+    ctx.floor("C09-D2/GATE", "to_request[i] = … in update_history", len(writes), 1, site=uh.site(), func=q)
+    rs_calls = uh.calls(dotted_name="self.request_synced_transactions")
+    ok = len(rs_calls) == 1 and [unparse(a) for a in rs_calls[0].args] == ["to_request", "remote_history_txids", params[1]] and \
+        "remote_history_txids = {txid for txid, _ in remote_history}" in t
+    ctx.ob("C09-D2/DEP", ok, uh.site(), "transactions are requested for exactly to_request, for this address, with the remote txid set", func=q)
+    # the chain is looked up when the caller did not pass it (status notifications never do)
+    am = params[3]
+    look = [x for x in uh.stmts(ast.Assign) if any(dotted(tg) == am for tg in x.targets) and "self.get_address_manager_for_address" in unparse(x.value)]
+    ctx.floor("C09-D5/GATE", "address-manager lookup in update_history", len(look), 1, site=uh.site(), func=q)
+    for x in look:
+        ok = unparse(x.value) == f"await self.get_address_manager_for_address({params[1]})" and bool(eg) and uh.must_precede(eg[0], lambda n: n is x.value, assume=[f"{am} is None"]) is None
+        ctx.ob("C09-D5/GATE", ok, uh.site(x), "when no address manager was passed (every status notification) it is looked up from the address before gap maintenance", func=q,
+               key=f"C09-D5/GATE|{q}|lookup")
+        R.exact_gate(ctx, "C09-D5/GATE", uh, x, f"{am} is None", "the lookup happens exactly when none was passed",
+                     ignore=["not local_status == remote_status", "we_need", "not not we_need", "len(pending_synced_history) == len(remote_history)"], key=f"C09-D5/GATE|{q}|lookup-gate")
+    # the verdict is taken on a re-read after the write
+    rereads = [c for c in uh.calls(dotted_name="self.get_local_status_and_history") if len(c.args) == 2]
+    ok = len(rereads) == 1 and bool(sh) and [unparse(a) for a in rereads[0].args] == [params[1], "synced_history"] and \
+        uh.must_precede(rereads[0], lambda n: n is sh[0]) is None
+    st = R.stmt_of(rereads[0]) if rereads else None
+    ok = ok and isinstance(st, ast.Assign) and unparse(st.targets[0]) == "(local_status, local_history)"
+    ctx.ob("C09-D2/ORDER", ok, uh.site(), "after the write, status and history are recomputed from what was written and compared with the server's again", func=q)
     rets = [r for r in uh.stmts(ast.Return) if is_const(r.value, False)]
     ok = len(rets) == 1 and uh.guarded(rets[0], "local_status != remote_status and not local_history == remote_history")[0] and \
         "self._known_addresses_out_of_sync.add(address)" in t
@@ -212,6 +254,29 @@ def persistence(ctx, prog):
         t = unparse(mm.node)
         ok = "for tx in txs" in t and "self._transaction_io(conn, tx, address, txhash)" in t
         ctx.ob("C09-D4/DEP", ok, mm.site(), "a batch is saved transaction by transaction in one SQL transaction", func=mm.fi.qualname)
+        ups = [c for c in mm.calls(name="execute") if c.args and isinstance(c.args[0], ast.Constant) and "UPDATE pubkey_address" in str(c.args[0].value)]
+        ok = len(ups) == 1 and is_const(ups[0].args[0], "UPDATE pubkey_address SET history = ?, used_times = ? WHERE address = ?") and \
+            unparse(ups[0].args[1]) == "(history, history_count, address)"
+        ctx.ob("C09-D4/DEP", ok, mm.site(), "history and used_times are written together for the address", func=mm.fi.qualname)
     sb = ctx.fa(f"{DB}.save_transaction_io_batch")
+    hc = [x for x in sb.stmts(ast.Assign) if any(dotted(tg) == "history_count" for tg in x.targets)]
+    ok = len(hc) == 1 and unparse(hc[0].value) == f"{sb.fi.params()[4]}.count(':') // 2"
+    ctx.ob("C09-D4/UNIT", ok, sb.site(), "used_times = number of history entries (each `txid:height:` contributes two colons)", func=sb.fi.qualname, key="C09-D4/UNIT|used_times|batch")
+    sh = ctx.fa(f"{DB}._set_address_history")
+    ups = [c for c in sh.calls() if c.args and isinstance(c.args[0], ast.Constant) and "UPDATE pubkey_address" in str(c.args[0].value)]
+    a, h = sh.fi.params()[1:3]
+    ok = len(ups) == 1 and is_const(ups[0].args[0], "UPDATE pubkey_address SET history = ?, used_times = ? WHERE address = ?") and \
+        len(ups[0].args) == 2 and norm_text(ups[0].args[1]) == norm_text(ast.parse(f"({h}, {h}.count(':') // 2, {a})", mode="eval").body)
+    ctx.ob("C09-D4/UNIT", ok, sh.site(), "set_address_history stores the history with used_times = its entry count (the gap logic reads used_times)", func=sh.fi.qualname,
+           key="C09-D4/UNIT|used_times|set")
+    sa = ctx.fa(f"{DB}.set_address_history")
+    ok = any(unparse(c) == f"self._set_address_history({', '.join(sa.fi.params()[1:3])})" for c in sa.calls())
+    ctx.ob("C09-D4/DEP", ok, sa.site(), "set_address_history delegates unchanged", func=sa.fi.qualname)
+    gl = ctx.fa(f"{L}.get_local_status_and_history")
+    tt = unparse(gl.node)
+    ok = "parts = history.split(':')[:-1]" in tt and "list(zip(parts[0::2], map(int, parts[1::2])))" in tt and \
+        "hexlify(sha256(history.encode())).decode() if history else None" in tt and "history = (address_details['history'] if address_details else '') or ''" in tt
+    ctx.ob("C09-D2/UNIT", ok, gl.site(), "local status = sha256 hex of the stored `txid:height:` string (None when empty), local history = its (txid, int height) pairs — the "
+           "same format update_history writes and the server hashes", func=gl.fi.qualname)
     ok = any(dotted(c.func) == "self.db.run" and c.args and dotted(c.args[0]) == "__many" for c in sb.calls())
     ctx.ob("C09-D4/DEP", ok, sb.site(), "through AIOSQLite.run (begin … commit / rollback)", func=sb.fi.qualname)
